@@ -79,7 +79,7 @@ impl Check for C38 {
         tier.pick(2000, 120_000)
     }
     fn rule(&self) -> String {
-        "case = a seeded history in which an actor id (in a third of the cases one that has not committed anything yet, so both branches claim its seq 1) is reused on two branches (fork without a new actor, or reload of a stale save continuing with the same actor), both branches commit 1–3 changes (conflicting (actor, seq) pairs with different hashes), and the conflicting branch is delivered to the other document by one of: apply_changes (in order / dependents first so they are queued), load_incremental, merge, a sync session, load of concatenated saves; before, after or interleaved with further local commits of the receiving side. After every delivery attempt: no two different changes share (actor, seq), per-actor seqs are gap-free, H3 holds, load(save()) and load(save{retain_orphans}) succeed and equal the document; after a local commit at seq s no queued change of that actor with seq ≥ s remains. Non-trivial = a conflicting change was actually delivered; distinct by (path, timing, order).".into()
+        "case = a seeded history in which an actor id (in a third of the cases one that has not committed anything yet, so both branches claim its seq 1) is reused on two branches (fork without a new actor, or reload of a stale save continuing with the same actor), both branches commit 1–3 changes (conflicting (actor, seq) pairs with different hashes), and the conflicting branch is delivered to the other document by one of: apply_changes (in order / dependents first so they are queued), load_incremental, merge, a sync session, load of concatenated saves, apply_changes of the shared actor's changes alone (in half the cases its first change depends on a change by another actor, so it waits in the queue without its dependency); before, after or interleaved with further local commits of the receiving side. After every delivery attempt: no two different changes share (actor, seq), per-actor seqs are gap-free, H3 holds, load(save()) and load(save{retain_orphans}) succeed and equal the document; after a local commit at seq s no queued change of that actor with seq ≥ s remains. Non-trivial = a conflicting change was actually delivered; distinct by (path, timing, order).".into()
     }
     fn required_counters(&self) -> Vec<&'static str> {
         vec!["conflicts_delivered", "path_apply", "path_apply_dependents_first", "path_load_incremental", "path_merge", "path_sync", "path_concat_load", "local_commit_after_queueing", "rejected", "uniqueness_checks", "shared_actor_without_history"]
@@ -122,6 +122,16 @@ impl Check for C38 {
             let _ = a.put(ROOT, "a-side", i as i64);
             a.commit_with(CommitOptions::default().with_time(10 + i as i64));
         }
+        // B's first change with the shared actor may depend on a change by another actor, so that it
+        // can be delivered without its dependency and wait in the queue
+        let mut b_pre = false;
+        if rng.chance(50) {
+            b.set_actor(actor(57));
+            let _ = b.put(ROOT, "b-pre", 1);
+            b.commit_with(CommitOptions::default().with_time(15));
+            b.set_actor(shared_actor.clone());
+            b_pre = true;
+        }
         let nb = rng.range(1, 3);
         for i in 0..nb {
             for _ in 0..rng.range(1, 3) {
@@ -140,7 +150,7 @@ impl Check for C38 {
         if b_changes.is_empty() {
             return;
         }
-        let path = case % 6;
+        let path = case % 7;
         let timing = rng.below(3); // 0: A committed before delivery (done above), 1: A commits after delivery, 2: both
         let mut delivered_conflict = na > 0;
         let res: Result<(), String> = match path {
@@ -201,6 +211,21 @@ impl Check for C38 {
                             r = Err(e.to_string());
                         }
                     }
+                }
+                r
+            }
+            6 => {
+                // only the shared actor's changes arrive: with a dependency on another actor's
+                // change they wait in the queue
+                cx.count("path_apply_without_dependencies");
+                let mut r = Ok(());
+                for c in b_changes.iter().filter(|c| c.actor_id() == &shared_actor) {
+                    if let Err(e) = a.apply_changes([c.clone()]) {
+                        r = Err(e.to_string());
+                    }
+                }
+                if b_pre && !queued_changes(&mut a).is_empty() {
+                    cx.count("shared_actor_change_queued_without_dependency");
                 }
                 r
             }
